@@ -20,6 +20,7 @@ def run(facts, tier):
         ("duplicates/emptiness", T.emptiness_and_duplicates, 3, "insert only after a failed find (Theta and Tuple update paths)"),
         ("tautologies", lambda fa: generic_lints.tautologies(fa, ('theta/', 'tuple/')), 2, "no comparison / assignment / min-max with two identical operands, no if-else with identical arms"),
         ("duplicate operands", lambda fa: generic_lints.duplicate_conjuncts(fa, ('theta/', 'tuple/')), 2, "no logical chain tests the same operand twice (copy-paste of the wrong peer)"),
+        ("forwarding peers", lambda fa: generic_lints.forwarding_peers(fa, ('theta/', 'tuple/')), 18, "one-statement typed overloads forward to an overload of their own name, never to the head of a sibling family (wrong peer)"),
         ("overload twins", lambda fa: twins.overload_twins(fa, ('tuple/', 'theta/')), 1, "const& and && overloads of one operation have identical bodies modulo std::move/forward"),
     ):
         o = f(facts)
